@@ -735,8 +735,22 @@ func (w *world) step() {
 		switch mode {
 		case "existing":
 			c := n.children[rapid.IntRange(0, len(n.children)-1).Draw(t, "child")]
-			w.hist = append(w.hist, fmt.Sprintf("#%d.New(%q)[existing #%d]", n.id, c.name, c.id))
-			got := n.lg.New(c.name)
+			// a lookup may carry options (the call is written the same way whether or not the child exists already):
+			// it is an operation on the receiver, the existing child is returned as it is
+			args := []any{c.name}
+			var opts []setting
+			if rapid.Bool().Draw(t, "lookupWithOptions") {
+				for i := rapid.IntRange(1, 2).Draw(t, "nopts"); i > 0; i-- {
+					s := genSetting(t, false)
+					if o := toOpt(s); o != nil {
+						opts = append(opts, s)
+						args = append(args, o)
+					}
+				}
+				w.labels["lookup-with-options"] = true
+			}
+			w.hist = append(w.hist, fmt.Sprintf("#%d.New(%q,%v)[existing #%d]", n.id, c.name, opts, c.id))
+			got := n.lg.New(args...)
 			if got != c.entry {
 				w.discrep("C10/lookup-by-name", "#%d.New(%q) did not return the existing direct child #%d of that name (it returned a logger named %q, parent match %v)",
 					n.id, c.name, c.id, got.Name(), got.Parent() == n.entry)
